@@ -724,3 +724,111 @@ func c09boundsFollowEveryBlock(c *an.Ctx) {
 		}
 	}
 }
+
+func init() {
+	old := All["C09"].Run
+	All["C09"].Run = func(c *an.Ctx) {
+		old(c)
+		c09memRowsCutAtSeriesRange(c)
+		c09outOfOrderNewestFirst(c)
+	}
+	All["C09"].Rules += " R14 R15"
+	addLevel("C09", "The row-based aggregate path sees the same rows as the plain select: pending rows of a series are cut at the time range of that series' chunk in the current file, and out-of-order files are folded newest first so that the newest version of a timestamp wins.")
+}
+
+// c09memRowsCutAtSeriesRange — C09.R14.  getMemEndIndex decides how many pending (mem table /
+// out-of-order) rows of ONE series are merged with the current ordered file.  The cut is the
+// max/min time of that series' chunk in the file; the file-wide range covers other series and
+// lets rows through whose older versions live in a later file.
+func c09memRowsCutAtSeriesRange(c *an.Ctx) {
+	const E = "engine"
+	r := c.Rule("C09.R14", "K-PROVENANCE", E+":(*fileCursor).getMemEndIndex — the cut time comes from the series' chunk meta of the current file")
+	f := fn(r, E+":fileCursor.getMemEndIndex")
+	if f == nil {
+		return
+	}
+	defs := localDefs(f)
+	fromChunkMeta := func(n ast.Node) bool {
+		ce, ok := n.(*ast.CallExpr)
+		if !ok {
+			return false
+		}
+		sel, ok := ce.Fun.(*ast.SelectorExpr)
+		if !ok {
+			return false
+		}
+		t := f.Info.TypeOf(sel.X)
+		return t != nil && strings.HasSuffix(strings.TrimPrefix(t.String(), "*"), "immutable.ChunkMeta")
+	}
+	n := 0
+	ast.Inspect(f.Body, func(m ast.Node) bool {
+		ce, ok := m.(*ast.CallExpr)
+		if !ok || len(ce.Args) != 3 {
+			return true
+		}
+		cal := an.Callee(f.Info, ce)
+		if cal == nil || !strings.HasPrefix(cal.Name(), "GetTimeRangeEndIndex") {
+			return true
+		}
+		n++
+		if !derivesFrom(f, defs, ce.Args[2], fromChunkMeta, 0) {
+			r.Fail(f.Name+": cut time not the series' chunk range", c.P.Pos(ce.Pos()), "the bound passed to %s does not come from the chunk meta of the series in the current file (%s): a wider bound hands out pending rows before the file that holds their older versions is read, and the aggregate counts a timestamp twice", cal.Name(), types.ExprString(ce.Args[2]))
+		}
+		return true
+	})
+	r.AddSites(n)
+	r.Floor(2, "GetTimeRangeEndIndex* calls")
+}
+
+// c09outOfOrderNewestFirst — C09.R15.  initMergeIters folds the out-of-order files into one record
+// per series; the accumulated record is always the NEWER side of the merge, which is right only
+// when the files are visited from the newest (highest index) to the oldest.
+func c09outOfOrderNewestFirst(c *an.Ctx) {
+	const E = "engine"
+	r := c.Rule("C09.R15", "K-IDIOM", E+":(*fileLoopCursor).initMergeIters — the out-of-order files are visited newest first (descending index)")
+	f := fn(r, E+":fileLoopCursor.initMergeIters")
+	if f == nil {
+		return
+	}
+	n := 0
+	ast.Inspect(f.Body, func(m ast.Node) bool {
+		ce, ok := m.(*ast.CallExpr)
+		if !ok {
+			return true
+		}
+		cal := an.Callee(f.Info, ce)
+		if cal == nil || (cal.Name() != "newFileCursor" && cal.Name() != "reInit") {
+			return true
+		}
+		var loop ast.Node
+		for p := f.Parent(ce); p != nil; p = f.Parent(p) {
+			switch p.(type) {
+			case *ast.ForStmt, *ast.RangeStmt:
+				loop = p
+			}
+			if loop != nil {
+				break
+			}
+		}
+		if loop == nil {
+			return true
+		}
+		n++
+		switch l := loop.(type) {
+		case *ast.ForStmt:
+			if inc, ok := l.Post.(*ast.IncDecStmt); ok && inc.Tok.String() == "--" {
+				return true
+			}
+		case *ast.RangeStmt:
+			if rc, ok := ast.Unparen(l.X).(*ast.CallExpr); ok {
+				if rcal := an.Callee(f.Info, rc); rcal != nil && rcal.Name() == "Backward" {
+					return true
+				}
+			}
+		}
+		r.Fail(f.Name+": out-of-order files visited oldest first", c.P.Pos(loop.Pos()), "the loop that opens the out-of-order files (%s) does not run from the newest file to the oldest: the accumulated record is merged as the newer side, so an older version of a rewritten timestamp wins in the aggregate", cal.Name())
+		return true
+	})
+	r.AddSites(n)
+	r.Floor(2, "file cursor (re)initialisations in the loop")
+}
